@@ -15,6 +15,7 @@ import (
 	"path/filepath"
 	"strings"
 	"sync"
+	"sync/atomic"
 	"time"
 
 	"verif/internal/rawhttp"
@@ -23,6 +24,9 @@ import (
 // Metadata is a fake GCE metadata server.
 type Metadata struct {
 	L net.Listener
+	// DelayNs (atomic) delays every reply; Reqs (atomic) counts the requests received.
+	DelayNs int64
+	Reqs    int64
 }
 
 func NewMetadata() (*Metadata, error) {
@@ -32,6 +36,10 @@ func NewMetadata() (*Metadata, error) {
 	}
 	m := &Metadata{L: l}
 	srv := &http.Server{Handler: http.HandlerFunc(func(w http.ResponseWriter, r *http.Request) {
+		atomic.AddInt64(&m.Reqs, 1)
+		if d := atomic.LoadInt64(&m.DelayNs); d > 0 {
+			time.Sleep(time.Duration(d))
+		}
 		w.Header().Set("Metadata-Flavor", "Google")
 		if strings.HasSuffix(r.URL.Path, "/token") {
 			w.Header().Set("Content-Type", "application/json")
